@@ -114,6 +114,29 @@ def range_menu(freq):
 
 
 KWARGS = (None, {})
+# (an ndarray as the range itself is refused loudly by the early-return comparison - ValueError, ambiguous truth
+#  value -; the documented type is a tuple, so only the types of the limits are varied)
+RANGE_TYPES = ("tuple-float", "list-float", "np.float64", "np.float32", "np.int64", "np.int32", "int")
+
+
+def _typed(rng, t):
+    """The range with its limits converted to the named type, or None when a limit is not exactly
+    representable in that type (the value must stay the same number)."""
+    import numpy as _np
+    conv = {"tuple-float": float, "list-float": float, "np.float64": _np.float64, "np.float32": _np.float32,
+            "np.int64": _np.int64, "np.int32": _np.int32, "int": int}[t]
+    out = []
+    for v in rng:
+        if v is None:
+            out.append(None)
+            continue
+        if t in ("np.int64", "np.int32", "int") and float(v) != int(v):
+            return None
+        c = conv(v)
+        if float(c) != float(v):
+            return None
+        out.append(c)
+    return list(out) if t == "list-float" else tuple(out)
 
 
 class Holder:
@@ -137,12 +160,24 @@ class System:
         self.freq = A.GRIDS[root["grid"]](F)
         self.menu_ops = [dict(op="U", rng=list(r), kw=k) for r in range_menu(self.freq)
                          for k in KWARGS]
+        if root.get("typed"):
+            # the same limits spelled with every real number type and container a caller may hold them in
+            self.menu_ops = [dict(op="U", rng=list(r), kw=None, rtype=t) for r in range_menu(self.freq)
+                             for t in RANGE_TYPES if _typed(r, t) is not None]
+        if root.get("shared"):
+            # one list object owned by the caller, edited in place between calls and passed again
+            self.menu_ops = [dict(op="U", rng=list(r), kw=k, shared=True) for r in range_menu(self.freq)
+                             for k in ({}, None)]
+        off, sc = root.get("amp", (0.0, 1.0))
+
+        def amp(rows):
+            return [[off + sc * float(v) for v in row] for row in rows]
         if self.kind in ("curve", "diffuse"):
-            self.curves = [list(map(float, root["values"]))]
+            self.curves = amp([root["values"]])
         elif self.kind == "trad":
-            self.curves = A.curve_set(root["shapes"], F)
+            self.curves = amp(A.curve_set(root["shapes"], F))
         elif self.kind == "azi":
-            self.curves_by_az = [A.curve_set(s, F) for s in root["shapes_by_az"]]
+            self.curves_by_az = [amp(A.curve_set(s, F)) for s in root["shapes_by_az"]]
 
     # --- E1 interface ----------------------------------------------------
     def initial(self, root):
@@ -164,8 +199,16 @@ class System:
     def apply(self, h, op):
         rng = tuple(op["rng"])
         kw = op["kw"]
+        arg = rng
+        if op.get("rtype"):
+            arg = _typed(rng, op["rtype"])
+        if op.get("shared"):
+            if not hasattr(h, "shared_list"):
+                h.shared_list = [None, None]
+            h.shared_list[0], h.shared_list[1] = rng
+            arg = h.shared_list
         try:
-            h.obj.update_peaks_bounded(search_range_in_hz=rng, find_peaks_kwargs=kw)
+            h.obj.update_peaks_bounded(search_range_in_hz=arg, find_peaks_kwargs=kw)
         except Exception as e:          # noqa: BLE001 - outcome, judged by the invariant
             h.rng, h.kw = rng, kw
             h.raised = type(e).__name__
@@ -334,6 +377,7 @@ def roots(tier, seed):
         for s in (["p2", "twopk", "up"], ["p4", "p1", "plateau"]):
             out.append(dict(kind="trad", grid="lin", grids=["lin", "same"], F=7, shapes=s, depth=1))
             out.append(dict(kind="trad", grid="lin", grids=["same", "lin"], F=7, shapes=s, depth=1))
+        out += _extra_roots(peaked[::16], [["p2", "twopk", "up"]], [["p4", "flat", "plateau"]])
     else:
         for g in ("lin", "geo"):
             for vals in A.all_curves(7, (1, 2, 3)):
@@ -357,6 +401,36 @@ def roots(tier, seed):
                 ["twopk_r", "q3", "p1"], ["flat", "up", "down"]]
         for a, b in itertools.product(trip, repeat=2):
             out.append(dict(kind="azi", grid="lin", F=7, depth=3, shapes_by_az=[a, b]))
+        out += _extra_roots(peaked[::5], trip[:3], trip[:3])
+    return out
+
+
+# a ripple of a few parts per million on a level of 2, amplitudes of order 1e-9 and of order 1e12:
+# which sample is a local maximum does not depend on the size of the differences
+AMPS = ((2.0, 1e-6), (0.0, 1e-9), (0.0, 1e12))
+
+
+def _extra_roots(values, trad_sets, azi_sets):
+    out = []
+    for amp in AMPS:
+        for vals in values:
+            out.append(dict(kind="curve", grid="lin", values=vals, depth=1, amp=list(amp)))
+            out.append(dict(kind="diffuse", grid="geo", values=vals, depth=1, amp=list(amp)))
+        for s in trad_sets:
+            out.append(dict(kind="trad", grid="lin", F=7, shapes=s, depth=1, amp=list(amp)))
+        for s in azi_sets:
+            out.append(dict(kind="azi", grid="lin", F=7, depth=1, shapes_by_az=[s, list(reversed(s))],
+                            amp=list(amp)))
+    for vals in values[:6]:
+        out.append(dict(kind="curve", grid="lin", values=vals, depth=1, typed=True))
+        out.append(dict(kind="diffuse", grid="lin", values=vals, depth=1, typed=True))
+        out.append(dict(kind="curve", grid="lin", values=vals, depth=2, shared=True))
+    for s in trad_sets:
+        out.append(dict(kind="trad", grid="lin", F=7, shapes=s, depth=1, typed=True))
+        out.append(dict(kind="trad", grid="lin", F=7, shapes=s, depth=2, shared=True))
+    for s in azi_sets:
+        out.append(dict(kind="azi", grid="lin", F=7, depth=1, shapes_by_az=[s, list(reversed(s))], typed=True))
+        out.append(dict(kind="azi", grid="lin", F=7, depth=2, shapes_by_az=[s, list(reversed(s))], shared=True))
     return out
 
 
@@ -382,9 +456,12 @@ def describe(tier):
         rule="roots: every curve over {1,2,3} of length 6 (quick) / 7 (thorough) as HvsrCurve, "
              "length 5/6 as HvsrDiffuseField, products of named shapes as HvsrTraditional and "
              "2-azimuth HvsrAzimuthal; BFS over all sequences of update_peaks_bounded from a menu "
-             "of 14 ranges x 2 kwargs up to the root's depth; a root is non-trivial/distinct by its "
+             "of 17 ranges x 2 kwargs up to the root's depth; further roots apply an amplitude transform (2 + 1e-6 v, "
+             "1e-9 v, 1e12 v), spell the limits of every range with every real number type (float, int, np.float64, "
+             "np.float32, np.int64, np.int32; tuple or list) or drive all range updates of a history through ONE "
+             "caller-owned list that is edited in place between calls; a root is non-trivial/distinct by its "
              "(kind, grid, curve values/shapes)",
-        bounds=dict(depth="1-2 quick, 2-3 thorough", ranges=14, kwargs=2),
+        bounds=dict(depth="1-2 quick, 2-3 thorough", ranges=17, kwargs=2, amplitude_transforms=[list(a) for a in AMPS], limit_types=list(RANGE_TYPES)),
         exhaustive=True,
         assumptions=["peaks adjacent to a range limit may or may not be candidates (weakest reading)",
                      "position within a flat-topped peak is not pinned"])
